@@ -83,6 +83,7 @@ class Acc:
     def batch(self, impl, ops, use_driver=True, count=True):
         P = self.P
         results = impl.run(ops)
+        norm = getattr(P, "normalize", None)
         if use_driver:
             for b in P.BACKENDS:
                 res = results[b]
@@ -108,7 +109,10 @@ class Acc:
                     if res[i][0] == "skip":      # the harness could not set this case up (no regular base value)
                         self.n_model -= 1
                         continue
-                    if o != res[i][0]:
+                    a, b2 = o, res[i][0]
+                    if norm is not None:
+                        a, b2 = norm(ops[i], a), norm(ops[i], b2)
+                    if a != b2:
                         self.n_diffs += 1
                         if len(self.diffs) < 2000:
                             self.diffs.append(dict(backend=b, op=list(ops[i]), model=o, impl=res[i][0], line=P.line(ops[i], b)))
